@@ -14,12 +14,28 @@ import AtreeModel.Codec.Encode
   does not panic" implies "the Go expression does not panic".  `make(n)` adds `n` to the allocation
   counter threaded through `DM`.
 
-  NOT modelled (the model answers `error .unsupported`, the harness does not emit these cases for
-  comparison but still runs its panic oracle on them): map slabs; a v1 array data slab whose head
-  has the has-inlined-slabs bit (`newInlinedExtraDataFromData`); the harness's wrapper value
-  (tag 165).  Inlined array/map/compact-map elements (tags 250–252) without an inlined-extra-data
-  section are modelled as what they are in the library: an error (the index check
-  `extraDataIndex >= len(inlinedExtraData)` fails at the latest).
+  The file has two parts.  The FIRST part is the decoder for slabs whose elements are plain values
+  and slab references only (`decodeSlabFlat`): array data / index slabs and large-value slabs.  It
+  answers `error .unsupported` as soon as it meets anything else: a map slab, a v1 array data slab
+  whose head has the has-inlined-slabs bit, the harness's wrapper value (tag 165).  Inlined
+  array/map/compact-map elements (tags 250–252) without an inlined-extra-data section are what they
+  are in the library: an error (the index check `extraDataIndex >= len(inlinedExtraData)` fails at
+  the latest).
+  The SECOND part (`decodeSlabGen`) transcribes the same Go functions for general storables and
+  adds map_data_slab_decode.go, map_metadata_slab_decode.go, map_elements_decode.go,
+  map_element_decode.go, map_extradata.go, extradata.go (`newInlinedExtraDataFromData`),
+  compactmap_extradata.go, typeinfo.go (`decodeTypeInfoRefIfNeeded`), `DecodeInlinedArrayStorable`,
+  `DecodeInlinedMapStorable`, `DecodeInlinedCompactMapStorable` and the recursion of
+  `hx.DecodeStorable`.  `decodeSlab` runs the first part and, if that answers `unsupported`, the
+  second part on the same input; a slab decoded by the first part is a `Slab.data` / `.index` /
+  `.storable`, a slab decoded by the second part a `Slab.adata` / `.mdata` / `.mindex` /
+  `.storableG` (or again `.index`).
+
+  Recursion of the second part: the Go decoders recurse on the nesting of the input (inlined slabs,
+  wrappers, collision groups), which the CBOR library has validated to be at most 32 levels deep;
+  the model recurses structurally on a fuel argument that `decodeSlabGen` sets to the input length
+  plus one (every recursive call consumes at least one byte of input first).  Running out of fuel is
+  an `error`.
 -/
 namespace Atree.Codec
 open Atree Atree.Gen
@@ -105,6 +121,8 @@ inductive SlabType where | undefined | array | map | storable
 deriving DecidableEq, Repr
 inductive ArrayType where | undefined | data | index | largeImmutable
 deriving DecidableEq, Repr
+inductive MapType where | undefined | data | index | largeEntry | collisionGroup
+deriving DecidableEq, Repr
 
 namespace SlabHead
 def version (h : SlabHead) : Nat := (h.b0 &&& maskVersion) >>> 4
@@ -129,6 +147,16 @@ def arrayType (h : SlabHead) : ArrayType :=
     | 0 => .data
     | 1 => .index
     | 2 => .largeImmutable
+    | _ => .undefined
+/-- `getSlabMapType`: the three low bits -/
+def mapType (h : SlabHead) : MapType :=
+  if h.slabType ≠ .map then .undefined
+  else
+    match h.b1 &&& 0b00000111 with
+    | 0 => .data
+    | 1 => .index
+    | 2 => .largeEntry
+    | 3 => .collisionGroup
     | _ => .undefined
 end SlabHead
 
@@ -409,8 +437,8 @@ def newArrayMetaDataSlabFromData (id : SlabID) (data : Bytes) : DM Slab :=
 
 /-! ### decode.go -/
 
-/-- `DecodeSlab` with the harness's decoders -/
-def decodeSlab (id : SlabID) (data : Bytes) : DM Slab :=
+/-- `DecodeSlab` with the harness's decoders, first part (see the header comment) -/
+def decodeSlabFlat (id : SlabID) (data : Bytes) : DM Slab :=
   if data.length < versionAndFlagSize then fail
   else do
     let hb ← sliceTo data versionAndFlagSize
@@ -428,16 +456,656 @@ def decodeSlab (id : SlabID) (data : Bytes) : DM Slab :=
       pure (.storable id e)
     | .undefined => fail
 
+/-! ## Second part: general storables, map slabs, inlined slabs -/
+
+/-- `math.MaxUint32` -/
+def maxUint32 : Nat := 4294967295
+
+/-- `hx.maxDecodeDepth` -/
+def maxDecodeDepth : Nat := 64
+
+/-- the value the harness builds from a byte string (`hx.tvFromBytes`) -/
+def stFromBytes (b : Bytes) (extra : Nat) : Stor :=
+  let e := tvFromBytes b extra
+  match e.pay with
+  | .val p => .val e.size p
+  | .ref id => .ref id
+
+/-- `inlinedExtraData[i]` after the check `extraDataIndex >= uint64(len(inlinedExtraData))` -/
+def getXD (xs : List XD) (i : Nat) : DM XD :=
+  if i ≥ xs.length then fail
+  else
+    match xs[i]? with
+    | some x => pure x
+    | none => panic
+
+/-- `binary.BigEndian.Uint64(digestBytes[i*digestSize:])` for `i < len(digestBytes)/digestSize` -/
+def digestsOf : Nat → Bytes → List Nat
+  | 0, _ => []
+  | n + 1, b => beVal (b.take digestSize) :: digestsOf n (b.drop digestSize)
+
+/-- `DecodeBytes` of the slab index, the length check, `copy(index[:], b)` -/
+def decodeIdx (d : Dec) : DM (Nat × Dec) := do
+  let (b, d) ← liftOpt d.decodeBytes
+  if b.length ≠ SlabIndexLength then fail
+  else pure (beVal (copyN SlabIndexLength b), d)
+
+mutual
+/-- `hx.decodeStorable(d, id, inl, depth)`; `addr` is the address of `id` -/
+def decStG : Nat → Nat → Dec → Nat → List XD → DM (Stor × Dec)
+  | 0, _, _, _, _ => fail
+  | fuel + 1, depth, d, addr, xs =>
+    if depth > maxDecodeDepth then fail
+    else do
+      let (t, d) ← liftOpt d.nextType
+      match t with
+      | .bytes =>
+        let (b, d) ← liftOpt d.decodeBytes
+        pure (stFromBytes b 0, d)
+      | .tag =>
+        let (n, d) ← liftOpt d.decodeTagNumber
+        if n = CBORTagInlinedArray then decInlArr fuel (depth + 1) d addr xs
+        else if n = CBORTagInlinedMap then decInlMap fuel (depth + 1) d addr xs
+        else if n = CBORTagInlinedCompactMap then decInlCMap fuel (depth + 1) d addr xs
+        else if n = CBORTagSlabID then do
+          let (e, d) ← decodeSlabIDStorable d
+          pure (Stor.ofElem e, d)
+        else if n = tagGapValue then do
+          let (b, d) ← liftOpt d.decodeBytes
+          pure (stFromBytes b 2, d)
+        else if n = tagSomeValue then do
+          let (s, d) ← decStG fuel (depth + 1) d addr xs
+          pure (.some s, d)
+        else fail
+      | _ => fail
+/-- the element loop of the array decoders: `decodeStorable`, then `safeAdd2Uint32(size, ByteSize)`;
+    `cdepth` is the depth at which the callback handed down decodes -/
+def decStsG : Nat → Nat → Nat → Dec → Nat → List XD → Nat → DM (List Stor × Nat × Dec)
+  | _, 0, _, d, _, _, size => pure ([], size, d)
+  | 0, _ + 1, _, _, _, _, _ => fail
+  | fuel + 1, n + 1, cdepth, d, addr, xs, size => do
+    let (e, d) ← decStG fuel cdepth d addr xs
+    if size + e.size > maxUint32 then fail
+    else do
+      let (es, size, d) ← decStsG fuel n cdepth d addr xs (size + e.size)
+      pure (e :: es, size, d)
+/-- `DecodeInlinedArrayStorable` (the tag number has been read) -/
+def decInlArr : Nat → Nat → Dec → Nat → List XD → DM (Stor × Dec)
+  | 0, _, _, _, _ => fail
+  | fuel + 1, cdepth, d, addr, xs => do
+    let (c, d) ← liftOpt d.decodeArrayHead
+    if c ≠ DecodeInlinedArrayStorable_inlinedArrayDataSlabArrayCount then fail
+    else do
+      let (i, d) ← liftOpt d.decodeUint64
+      let x ← getXD xs i
+      match x with
+      | .arr ty => do
+        let (idx, d) ← decodeIdx d
+        let (n, d) ← liftOpt d.decodeArrayHead
+        if n > maxUint32 then fail
+        else do
+          alloc n
+          let (es, _, d) ← decStsG fuel n cdepth d addr xs inlinedArrayDataSlabPrefixSize
+          pure (.arr ty idx es, d)
+      | _ => fail
+/-- `DecodeInlinedMapStorable` -/
+def decInlMap : Nat → Nat → Dec → Nat → List XD → DM (Stor × Dec)
+  | 0, _, _, _, _ => fail
+  | fuel + 1, cdepth, d, addr, xs => do
+    let (c, d) ← liftOpt d.decodeArrayHead
+    if c ≠ DecodeInlinedMapStorable_inlinedMapDataSlabArrayCount then fail
+    else do
+      let (i, d) ← liftOpt d.decodeUint64
+      let x ← getXD xs i
+      match x with
+      | .map mx => do
+        let (idx, d) ← decodeIdx d
+        let (els, d) ← decMElsG fuel cdepth d addr xs
+        if inlinedMapDataSlabPrefixSize + els.size > maxUint32 then fail
+        else pure (.map mx idx els, d)
+      | _ => fail
+/-- `DecodeInlinedCompactMapStorable` -/
+def decInlCMap : Nat → Nat → Dec → Nat → List XD → DM (Stor × Dec)
+  | 0, _, _, _, _ => fail
+  | fuel + 1, cdepth, d, addr, xs => do
+    let (c, d) ← liftOpt d.decodeArrayHead
+    if c ≠ DecodeInlinedCompactMapStorable_inlinedMapDataSlabArrayCount then fail
+    else do
+      let (i, d) ← liftOpt d.decodeUint64
+      let x ← getXD xs i
+      match x with
+      | .cmap mx hkeys keys => do
+        let (idx, d) ← decodeIdx d
+        let (n, d) ← liftOpt d.decodeArrayHead
+        if n ≠ keys.length then fail
+        else do
+          alloc hkeys.length     -- the copy of the digests
+          alloc n                -- elems
+          let (es, size, d) ← decCVals fuel keys cdepth d addr xs hkeyElementsPrefixSize
+          if inlinedMapDataSlabPrefixSize + size > maxUint32 then fail
+          else pure (.map mx idx (.hkey 0 hkeys es), d)
+      | _ => fail
+/-- the value loop of `DecodeInlinedCompactMapStorable`: one value per cached key -/
+def decCVals : Nat → List (Nat × Nat) → Nat → Dec → Nat → List XD → Nat → DM (List MEl × Nat × Dec)
+  | _, [], _, d, _, _, size => pure ([], size, d)
+  | 0, _ :: _, _, _, _, _, _ => fail
+  | fuel + 1, k :: ks, cdepth, d, addr, xs, size => do
+    let (v, d) ← decStG fuel cdepth d addr xs
+    let elemSize := singleElementPrefixSize + k.1 + v.size
+    if elemSize > maxUint32 then fail
+    else if size + digestSize + elemSize > maxUint32 then fail
+    else do
+      let (es, size, d) ← decCVals fuel ks cdepth d addr xs (size + digestSize + elemSize)
+      pure (.single (.mk (.val k.1 k.2) v) :: es, size, d)
+/-- `newElementsFromData` -/
+def decMElsG : Nat → Nat → Dec → Nat → List XD → DM (MEls × Dec)
+  | 0, _, _, _, _ => fail
+  | fuel + 1, cdepth, d, addr, xs => do
+    let (c, d) ← liftOpt d.decodeArrayHead
+    if c ≠ 3 then fail
+    else do
+      let (level, d) ← liftOpt d.decodeUint64
+      let (digestBytes, d) ← liftOpt d.decodeBytes
+      if digestBytes.length % digestSize ≠ 0 then fail
+      else do
+        let digestCount := digestBytes.length / digestSize
+        alloc digestCount
+        let hkeys := digestsOf digestCount digestBytes
+        let (elemCount, d) ← liftOpt d.decodeArrayHead
+        if elemCount > maxUint32 then fail
+        else if digestCount ≠ 0 ∧ digestCount ≠ elemCount then fail
+        else if digestCount = 0 ∧ elemCount > 0 then do
+          alloc elemCount
+          let (es, _, d) ← decSElsG fuel elemCount cdepth d addr xs singleElementsPrefixSize
+          pure (.single level es, d)
+        else do
+          alloc elemCount
+          let (es, _, d) ← decMElListG fuel elemCount cdepth d addr xs hkeyElementsPrefixSize
+          pure (.hkey level hkeys es, d)
+/-- `newSingleElementFromData` -/
+def decSElG : Nat → Nat → Dec → Nat → List XD → DM (SEl × Dec)
+  | 0, _, _, _, _ => fail
+  | fuel + 1, cdepth, d, addr, xs => do
+    let (c, d) ← liftOpt d.decodeArrayHead
+    if c ≠ 2 then fail
+    else do
+      let (k, d) ← decStG fuel cdepth d addr xs
+      let (v, d) ← decStG fuel cdepth d addr xs
+      if singleElementPrefixSize + k.size + v.size > maxUint32 then fail
+      else pure (.mk k v, d)
+/-- the loop over `newSingleElementFromData` in `newElementsFromData` -/
+def decSElsG : Nat → Nat → Nat → Dec → Nat → List XD → Nat → DM (List SEl × Nat × Dec)
+  | _, 0, _, d, _, _, size => pure ([], size, d)
+  | 0, _ + 1, _, _, _, _, _ => fail
+  | fuel + 1, n + 1, cdepth, d, addr, xs, size => do
+    let (e, d) ← decSElG fuel cdepth d addr xs
+    if size + e.size > maxUint32 then fail
+    else do
+      let (es, size, d) ← decSElsG fuel n cdepth d addr xs (size + e.size)
+      pure (e :: es, size, d)
+/-- `newElementFromData` -/
+def decMElG : Nat → Nat → Dec → Nat → List XD → DM (MEl × Dec)
+  | 0, _, _, _, _ => fail
+  | fuel + 1, cdepth, d, addr, xs => do
+    let (t, d) ← liftOpt d.nextType
+    match t with
+    | .array => do
+      let (e, d) ← decSElG fuel cdepth d addr xs
+      pure (.single e, d)
+    | .tag => do
+      let (n, d) ← liftOpt d.decodeTagNumber
+      if n = CBORTagInlineCollisionGroup then do
+        let (els, d) ← decMElsG fuel cdepth d addr xs
+        pure (.inl els, d)
+      else if n = CBORTagExternalCollisionGroup then do
+        -- `newExternalCollisionGroupFromData`: the storable must be a `SlabIDStorable`
+        let (s, d) ← decStG fuel cdepth d addr xs
+        match s with
+        | .ref id => pure (.ext id, d)
+        | _ => fail
+      else fail
+    | _ => fail
+/-- the loop over `newElementFromData`: `safeAdd3Uint32(size, digestSize, elem.Size())` -/
+def decMElListG : Nat → Nat → Nat → Dec → Nat → List XD → Nat → DM (List MEl × Nat × Dec)
+  | _, 0, _, d, _, _, size => pure ([], size, d)
+  | 0, _ + 1, _, _, _, _, _ => fail
+  | fuel + 1, n + 1, cdepth, d, addr, xs, size => do
+    let (e, d) ← decMElG fuel cdepth d addr xs
+    if size + digestSize + e.size > maxUint32 then fail
+    else do
+      let (es, size, d) ← decMElListG fuel n cdepth d addr xs (size + digestSize + e.size)
+      pure (e :: es, size, d)
+end
+
+/-! ### map_extradata.go, typeinfo.go, extradata.go, compactmap_extradata.go -/
+
+/-- "Type info is encoded as type info ref": `cbor.Unmarshal(rawTypeInfo[2:], &index)`, the range
+    check, `inlinedTypeInfo[int(index)]` -/
+def typeInfoByRef (tis : List TyInfo) (raw : Bytes) : DM TyInfo := do
+  let r ← sliceFrom raw 2
+  let index ← liftOpt (unmarshalUint64 r)
+  if index ≥ tis.length then fail
+  else
+    match tis[index]? with
+    | some t => pure t
+    | none => panic
+
+/-- "Decode type info as is": `cbor.NewByteStreamDecoder(rawTypeInfo)`, then the default decoder -/
+def typeInfoAsIs (raw : Bytes) : DM TyInfo := do
+  let (t, _) ← decodeTypeInfo (Dec.new raw)
+  pure t
+
+/-- what the closure of `decodeTypeInfoRefIfNeeded` does with the raw bytes of the next item:
+    `len(raw) > 2 && bytes.Equal(raw[:2], typeInfoRefTagHeadAndTagNumber)` selects the reference form -/
+def typeInfoOfRaw (tis : List TyInfo) (raw : Bytes) : DM TyInfo :=
+  if raw.length > 2 then do
+    let p ← sliceTo raw 2
+    if p = [0xd8, CBORTagTypeInfoRef] then typeInfoByRef tis raw else typeInfoAsIs raw
+  else typeInfoAsIs raw
+
+/-- the `TypeInfoDecoder` returned by `decodeTypeInfoRefIfNeeded(inlinedTypeInfo, hx.DecodeTypeInfo)` -/
+def decodeTypeInfoRef (tis : List TyInfo) (d : Dec) : DM (TyInfo × Dec) :=
+  if tis.length = 0 then decodeTypeInfo d
+  else do
+    let (raw, d) ← liftOpt d.decodeRawBytes
+    let t ← typeInfoOfRaw tis raw
+    pure (t, d)
+
+/-- `newMapExtraData` -/
+def newMapExtraData (tis : List TyInfo) (d : Dec) : DM (MapExtra × Dec) := do
+  let (length, d) ← liftOpt d.decodeArrayHead
+  if length ≠ mapExtraDataLength then fail
+  else do
+    let (ty, d) ← decodeTypeInfoRef tis d
+    let (count, d) ← liftOpt d.decodeUint64
+    let (seed, d) ← liftOpt d.decodeUint64
+    pure ({ ty := ty, count := count, seed := seed }, d)
+
+/-- `newMapExtraDataFromData` -/
+def newMapExtraDataFromData (data : Bytes) : DM (MapExtra × Bytes) := do
+  let (x, d) ← newMapExtraData [] (Dec.new data)
+  let rest ← sliceFrom data d.numBytesDecoded
+  pure (x, rest)
+
+/-- `newArrayExtraData` with the type-info decoder of the inlined-extra-data section -/
+def newArrayExtraDataRef (tis : List TyInfo) (d : Dec) : DM (TyInfo × Dec) := do
+  let (length, d) ← liftOpt d.decodeArrayHead
+  if length ≠ arrayExtraDataLength then fail
+  else decodeTypeInfoRef tis d
+
+/-- the key loop of `newCompactMapExtraData`: `decodeStorable(dec, SlabIDUndefined, nil)`, which must
+    give a `ComparableStorable` (with the harness's values: a `TV`) -/
+def decCompactKeys (fuel : Nat) : Nat → Dec → DM (List (Nat × Nat) × Dec)
+  | 0, d => pure ([], d)
+  | n + 1, d => do
+    let (k, d) ← decStG fuel 0 d 0 []
+    match k with
+    | .val s p => do
+      let (ks, d) ← decCompactKeys fuel n d
+      pure ((s, p) :: ks, d)
+    | _ => fail
+
+/-- `newCompactMapExtraData` -/
+def newCompactMapExtraData (fuel : Nat) (tis : List TyInfo) (d : Dec) : DM (XD × Dec) := do
+  let (length, d) ← liftOpt d.decodeArrayHead
+  if length ≠ compactMapExtraDataLength then fail
+  else do
+    let (x, d) ← newMapExtraData tis d
+    let (digestBytes, d) ← liftOpt d.decodeBytes
+    if digestBytes.length % digestSize ≠ 0 then fail
+    else do
+      let digestCount := digestBytes.length / digestSize
+      if digestCount > maxUint32 then fail
+      else do
+        let (keyCount, d) ← liftOpt d.decodeArrayHead
+        if keyCount ≠ digestCount then fail
+        else do
+          alloc digestCount
+          let hkeys := digestsOf digestCount digestBytes
+          alloc keyCount
+          let (keys, d) ← decCompactKeys fuel keyCount d
+          pure (.cmap x hkeys keys, d)
+
+/-- the loop decoding the duplicated type infos -/
+def decTypeInfos : Nat → Dec → DM (List TyInfo × Dec)
+  | 0, d => pure ([], d)
+  | n + 1, d => do
+    let (t, d) ← decodeTypeInfo d
+    let (ts, d) ← decTypeInfos n d
+    pure (t :: ts, d)
+
+/-- one extra-data entry: tag number, then the decoder for that kind -/
+def decXD (fuel : Nat) (tis : List TyInfo) (d : Dec) : DM (XD × Dec) := do
+  let (tagNum, d) ← liftOpt d.decodeTagNumber
+  if tagNum = CBORTagInlinedArrayExtraData then do
+    let (ty, d) ← newArrayExtraDataRef tis d
+    pure (XD.arr ty, d)
+  else if tagNum = CBORTagInlinedMapExtraData then do
+    let (mx, d) ← newMapExtraData tis d
+    pure (XD.map mx, d)
+  else if tagNum = CBORTagInlinedCompactMapExtraData then newCompactMapExtraData fuel tis d
+  else fail
+
+/-- the loop decoding the extra-data entries -/
+def decXDs (fuel : Nat) (tis : List TyInfo) : Nat → Dec → DM (List XD × Dec)
+  | 0, d => pure ([], d)
+  | n + 1, d => do
+    let (x, d) ← decXD fuel tis d
+    let (rest, d) ← decXDs fuel tis n d
+    pure (x :: rest, d)
+
+/-- `newInlinedExtraDataFromData`: the entries and `data[dec.NumBytesDecoded():]` -/
+def newInlinedExtraDataFromData (data : Bytes) : DM (List XD × Bytes) := do
+  let d := Dec.new data
+  let (count, d) ← liftOpt d.decodeArrayHead
+  if count ≠ inlinedExtraDataArrayCount then fail
+  else do
+    let (typeInfoCount, d) ← liftOpt d.decodeArrayHead
+    if typeInfoCount > data.length then fail
+    else do
+      alloc typeInfoCount
+      let (tis, d) ← decTypeInfos typeInfoCount d
+      let (extraDataCount, d) ← liftOpt d.decodeArrayHead
+      if extraDataCount = 0 then fail
+      else if extraDataCount > data.length then fail
+      else do
+        alloc extraDataCount
+        let (xs, d) ← decXDs (data.length + 1) tis extraDataCount d
+        let rest ← sliceFrom data d.numBytesDecoded
+        pure (xs, rest)
+
+/-! ### map_data_slab_decode.go -/
+
+/-- both versions from "Decode elements" on -/
+def mapDataContent (id : SlabID) (h : SlabHead) (extra : Option MapExtra) (next : SlabID)
+    (xs : List XD) (data : Bytes) : DM Slab := do
+  let (els, _) ← decMElsG (data.length + 1) 0 (Dec.new data) id.addr xs
+  if versionAndFlagSize + els.size > maxUint32 then fail
+  else if ¬ h.isRoot ∧ versionAndFlagSize + els.size + SlabIDLength > maxUint32 then fail
+  else
+    pure (.mdata { id := id, next := next, extra := extra, els := els,
+                   anySize := !h.hasSizeLimit, group := decide (h.mapType = .collisionGroup) })
+
+/-- `newMapDataSlabFromDataV0` (`data` without the two head bytes) -/
+def newMapDataSlabFromDataV0 (id : SlabID) (h : SlabHead) (data : Bytes) : DM Slab := do
+  if h.isRoot then do
+    let (x, data) ← newMapExtraDataFromData data
+    if data.length < versionAndFlagSize then fail
+    else do
+      let data ← sliceFrom data versionAndFlagSize
+      mapDataContent id h (some x) SlabID.undef [] data
+  else
+    if data.length < SlabIDLength then fail
+    else do
+      let next ← newSlabIDFromRawBytes data
+      let data ← sliceFrom data SlabIDLength
+      mapDataContent id h none next [] data
+
+/-- `newMapDataSlabFromDataV1` after the optional extra data and the optional inlined extra data -/
+def mapDataV1AfterIED (id : SlabID) (h : SlabHead) (extra : Option MapExtra) (xs : List XD) (data : Bytes) : DM Slab :=
+  if h.hasNextSlabID then
+    if data.length < SlabIDLength then fail
+    else do
+      let next ← newSlabIDFromRawBytes data
+      let data ← sliceFrom data SlabIDLength
+      mapDataContent id h extra next xs data
+  else mapDataContent id h extra SlabID.undef xs data
+
+/-- `newMapDataSlabFromDataV1` after the optional extra data -/
+def mapDataV1AfterExtra (id : SlabID) (h : SlabHead) (extra : Option MapExtra) (data : Bytes) : DM Slab :=
+  if h.hasInlinedSlabs then do
+    let (xs, data) ← newInlinedExtraDataFromData data
+    mapDataV1AfterIED id h extra xs data
+  else mapDataV1AfterIED id h extra [] data
+
+/-- `newMapDataSlabFromDataV1` -/
+def newMapDataSlabFromDataV1 (id : SlabID) (h : SlabHead) (data : Bytes) : DM Slab := do
+  if h.isRoot then do
+    let (x, data) ← newMapExtraDataFromData data
+    mapDataV1AfterExtra id h (some x) data
+  else mapDataV1AfterExtra id h none data
+
+/-- `newMapDataSlabFromData` -/
+def newMapDataSlabFromData (id : SlabID) (data : Bytes) : DM Slab :=
+  if data.length < versionAndFlagSize then fail
+  else do
+    let hb ← sliceTo data versionAndFlagSize
+    let h ← newHeadFromData hb
+    if h.mapType ≠ .data ∧ h.mapType ≠ .collisionGroup then fail
+    else do
+      let data ← sliceFrom data versionAndFlagSize
+      if h.version = 0 then newMapDataSlabFromDataV0 id h data
+      else if h.version = 1 then newMapDataSlabFromDataV1 id h data
+      else fail
+
+/-! ### map_metadata_slab_decode.go -/
+
+/-- `binary.BigEndian.Uint64(b)` (`_ = b[7]`) -/
+def be64 (b : Bytes) : DM Nat :=
+  if 8 ≤ b.length then pure (beVal (b.take 8)) else panic
+
+/-- the child-header loop of v0: 16-byte slab ID, 8-byte first key, 4-byte size at `offset` -/
+def mapMetaLoopV0 (data : Bytes) : Nat → Nat → DM (List MChildHdr)
+  | 0, _ => pure []
+  | n + 1, offset => do
+    let b ← sliceFrom data offset
+    let slabID ← newSlabIDFromRawBytes b
+    let firstKeyOffset := offset + SlabIDLength
+    let fb ← sliceFrom data firstKeyOffset
+    let firstKey ← be64 fb
+    let sizeOffset := firstKeyOffset + digestSize
+    let sb ← sliceFrom data sizeOffset
+    let size ← be32 sb
+    let hs ← mapMetaLoopV0 data n (offset + newMapMetaDataSlabFromDataV0_mapSlabHeaderSizeV0)
+    pure ({ id := slabID, size := size, firstKey := firstKey } :: hs)
+
+/-- `newMapMetaDataSlabFromDataV0` after the optional extra data -/
+def mapMetaV0AfterExtra (id : SlabID) (extra : Option MapExtra) (data : Bytes) : DM Slab :=
+  if data.length < newMapMetaDataSlabFromDataV0_mapMetaDataArrayHeadSizeV0 then fail
+  else do
+    let childHeaderCount ← be16 data
+    let data ← sliceFrom data newMapMetaDataSlabFromDataV0_mapMetaDataArrayHeadSizeV0
+    if data.length ≠ newMapMetaDataSlabFromDataV0_mapSlabHeaderSizeV0 * childHeaderCount then fail
+    else do
+      alloc childHeaderCount
+      let hs ← mapMetaLoopV0 data childHeaderCount 0
+      pure (.mindex { id := id, extra := extra, childHdrs := hs })
+
+/-- `newMapMetaDataSlabFromDataV0` -/
+def newMapMetaDataSlabFromDataV0 (id : SlabID) (h : SlabHead) (data : Bytes) : DM Slab := do
+  if h.isRoot then do
+    let (x, data) ← newMapExtraDataFromData data
+    if data.length < versionAndFlagSize then fail
+    else do
+      let data ← sliceFrom data versionAndFlagSize
+      mapMetaV0AfterExtra id (some x) data
+  else mapMetaV0AfterExtra id none data
+
+/-- the child-header loop of v1: 8-byte slab index, 8-byte first key, 2-byte size at `offset` -/
+def mapMetaLoopV1 (data : Bytes) (addr : Nat) : Nat → Nat → DM (List MChildHdr)
+  | 0, _ => pure []
+  | n + 1, offset => do
+    let ib ← sliceFrom data offset
+    let idx := beVal (copyN SlabIndexLength ib)
+    let offset := offset + SlabIndexLength
+    let fb ← sliceFrom data offset
+    let firstKey ← be64 fb
+    let offset := offset + digestSize
+    let sb ← sliceFrom data offset
+    let size ← be16 sb
+    let offset := offset + 2
+    let hs ← mapMetaLoopV1 data addr n offset
+    pure ({ id := ⟨addr, idx⟩, size := size, firstKey := firstKey } :: hs)
+
+/-- `newMapMetaDataSlabFromDataV1` after the optional extra data -/
+def mapMetaV1AfterExtra (id : SlabID) (extra : Option MapExtra) (data : Bytes) : DM Slab :=
+  if data.length < mapMetaDataSlabPrefixSize - versionAndFlagSize then fail
+  else do
+    let ab ← sliceFrom data 0
+    let addr := beVal (copyN SlabAddressLength ab)
+    let offset := SlabAddressLength
+    let cb ← sliceFrom data offset
+    let childHeaderCount ← be16 cb
+    let offset := offset + newMapMetaDataSlabFromDataV1_arrayHeaderSize
+    let tail ← sliceFrom data offset
+    if tail.length ≠ mapSlabHeaderSize * childHeaderCount then fail
+    else do
+      alloc childHeaderCount
+      let hs ← mapMetaLoopV1 data addr childHeaderCount offset
+      pure (.mindex { id := id, extra := extra, childHdrs := hs })
+
+/-- `newMapMetaDataSlabFromDataV1` -/
+def newMapMetaDataSlabFromDataV1 (id : SlabID) (h : SlabHead) (data : Bytes) : DM Slab := do
+  if h.isRoot then do
+    let (x, data) ← newMapExtraDataFromData data
+    mapMetaV1AfterExtra id (some x) data
+  else mapMetaV1AfterExtra id none data
+
+/-- `newMapMetaDataSlabFromData` -/
+def newMapMetaDataSlabFromData (id : SlabID) (data : Bytes) : DM Slab :=
+  if data.length < versionAndFlagSize then fail
+  else do
+    let hb ← sliceTo data versionAndFlagSize
+    let h ← newHeadFromData hb
+    if h.mapType ≠ .index then fail
+    else do
+      let data ← sliceFrom data versionAndFlagSize
+      if h.version = 0 then newMapMetaDataSlabFromDataV0 id h data
+      else if h.version = 1 then newMapMetaDataSlabFromDataV1 id h data
+      else fail
+
+/-! ### array_data_slab_decode.go with general elements -/
+
+/-- from "Check data length for array element head" to the end; `checkEOF` = v1 -/
+def arrDataContentG (id : SlabID) (isRoot : Bool) (ty : Option TyInfo) (next : SlabID)
+    (checkEOF : Bool) (xs : List XD) (data : Bytes) : DM Slab :=
+  if data.length < arrayDataSlabElementHeadSize then fail
+  else do
+    let (elemCount, d) ← liftOpt (Dec.new data).decodeArrayHead
+    if elemCount > maxUint32 then fail
+    else do
+      let slabSize := if isRoot then arrayRootDataSlabPrefixSize else arrayDataSlabPrefixSize
+      alloc elemCount
+      let (es, _, d) ← decStsG (data.length + 1) elemCount 0 d id.addr xs slabSize
+      if checkEOF = true ∧ d.numBytesDecoded < data.length then fail
+      else pure (.adata { id := id, next := next, ty := ty, elems := es })
+
+/-- `newArrayDataSlabFromDataV0` -/
+def newArrayDataSlabFromDataV0G (id : SlabID) (h : SlabHead) (data : Bytes) : DM Slab := do
+  if h.isRoot then do
+    let (ty, data) ← newArrayExtraDataFromData data
+    if data.length < versionAndFlagSize then fail
+    else do
+      let data ← sliceFrom data versionAndFlagSize
+      arrDataContentG id true (some ty) SlabID.undef false [] data
+  else
+    if data.length < SlabIDLength then fail
+    else do
+      let next ← newSlabIDFromRawBytes data
+      let data ← sliceFrom data SlabIDLength
+      arrDataContentG id false none next false [] data
+
+/-- the part of `newArrayDataSlabFromDataV1` after the extra data and the inlined extra data -/
+def arrDataV1AfterIEDG (id : SlabID) (h : SlabHead) (ty : Option TyInfo) (xs : List XD) (data : Bytes) : DM Slab :=
+  if h.hasNextSlabID then do
+    let next ← newSlabIDFromRawBytes data
+    let data ← sliceFrom data SlabIDLength
+    arrDataContentG id h.isRoot ty next true xs data
+  else arrDataContentG id h.isRoot ty SlabID.undef true xs data
+
+/-- the part of `newArrayDataSlabFromDataV1` after the extra data -/
+def arrDataV1AfterExtraG (id : SlabID) (h : SlabHead) (ty : Option TyInfo) (data : Bytes) : DM Slab :=
+  if h.hasInlinedSlabs then do
+    let (xs, data) ← newInlinedExtraDataFromData data
+    arrDataV1AfterIEDG id h ty xs data
+  else arrDataV1AfterIEDG id h ty [] data
+
+/-- `newArrayDataSlabFromDataV1` -/
+def newArrayDataSlabFromDataV1G (id : SlabID) (h : SlabHead) (data : Bytes) : DM Slab := do
+  if h.isRoot then do
+    let (ty, data) ← newArrayExtraDataFromData data
+    arrDataV1AfterExtraG id h (some ty) data
+  else arrDataV1AfterExtraG id h none data
+
+/-- `newArrayDataSlabFromData` -/
+def newArrayDataSlabFromDataG (id : SlabID) (data : Bytes) : DM Slab :=
+  if data.length < versionAndFlagSize then fail
+  else do
+    let hb ← sliceTo data versionAndFlagSize
+    let h ← newHeadFromData hb
+    if h.arrayType ≠ .data then fail
+    else do
+      let data ← sliceFrom data versionAndFlagSize
+      if h.version = 0 then newArrayDataSlabFromDataV0G id h data
+      else if h.version = 1 then newArrayDataSlabFromDataV1G id h data
+      else fail
+
+/-- `DecodeSlab` with the harness's decoders, second part (see the header comment) -/
+def decodeSlabGen (id : SlabID) (data : Bytes) : DM Slab :=
+  if data.length < versionAndFlagSize then fail
+  else do
+    let hb ← sliceTo data versionAndFlagSize
+    let h ← newHeadFromData hb
+    match h.slabType with
+    | .array =>
+      match h.arrayType with
+      | .data => newArrayDataSlabFromDataG id data
+      | .index => newArrayMetaDataSlabFromData id data
+      | _ => fail
+    | .map =>
+      match h.mapType with
+      | .data => newMapDataSlabFromData id data
+      | .index => newMapMetaDataSlabFromData id data
+      | .collisionGroup => newMapDataSlabFromData id data
+      | _ => fail
+    | .storable => do
+      let rest ← sliceFrom data versionAndFlagSize
+      let (s, _) ← decStG (rest.length + 1) 0 (Dec.new rest) id.addr []
+      pure (.storableG id s)
+    | .undefined => fail
+
+/-- `DecodeSlab` with the harness's decoders -/
+def decodeSlab (id : SlabID) (data : Bytes) : DM Slab := fun n =>
+  match decodeSlabFlat id data n with
+  | .error .unsupported _ => decodeSlabGen id data n
+  | r => r
+
 /-- `Slab.SlabID()` -/
 def Slab.id : Slab → SlabID
   | .data _ s => s.hdr.id
   | .index _ m => m.hdr.id
   | .storable id _ => id
+  | .adata a => a.id
+  | .mdata s => s.id
+  | .mindex m => m.id
+  | .storableG id _ => id
+
+mutual
+/-- `elementsStorables` -/
+def MEls.storables : MEls → List Stor
+  | .hkey _ _ es => melListStorables es
+  | .single _ es => selListStorables es
+/-- `elementStorables` -/
+def MEl.storables : MEl → List Stor
+  | .single (.mk k v) => [k, v]
+  | .inl els => els.storables
+  | .ext id => [.ref id]
+def melListStorables : List MEl → List Stor
+  | [] => []
+  | e :: es => e.storables ++ melListStorables es
+def selListStorables : List SEl → List Stor
+  | [] => []
+  | .mk k v :: es => k :: v :: selListStorables es
+end
 
 /-- `Slab.ChildStorables()` of a decoded slab -/
-def Slab.childStorables : Slab → List Elem
-  | .data _ s => s.elems
-  | .index _ m => m.childHdrs.map (fun h => { size := slabIDStorableSize, pay := .ref h.id })
-  | .storable _ e => [e]
+def Slab.childStorables : Slab → List Stor
+  | .data _ s => s.elems.map Stor.ofElem
+  | .index _ m => m.childHdrs.map (fun h => .ref h.id)
+  | .storable _ e => [Stor.ofElem e]
+  | .adata a => a.elems
+  | .mdata s => s.els.storables
+  | .mindex m => m.childHdrs.map (fun h => .ref h.id)
+  | .storableG _ s => [s]
 
 end Atree.Codec
